@@ -46,7 +46,7 @@ func reg(name, desc string, call func(ex *Exec, st *State, call *ast.CallExpr, r
 
 var i64 = goInt(64, true)
 
-func mathC(v int64) *Term { return mkInt(sortMath, v) }
+func mathC(v int64) *Term  { return mkInt(sortMath, v) }
 func toMath(t *Term) *Term { return mkConv(t, sortMath) }
 
 const nsPerSec = 1000000000
@@ -462,7 +462,8 @@ func init() {
 		t := ex.info().TypeOf(c)
 		v := freshValue("connstate", t)
 		st.assumeValid(v)
-		for p, l := range v.L {
+		for _, p := range sortedKeys(v.L) {
+			l := v.L[p]
 			if p == ".HandshakeComplete" || p == ".TLS.HandshakeComplete" {
 				st.assume(mkImplies(tlsDone(st), l))
 			}
@@ -539,7 +540,8 @@ func init() {
 		av := freshValue("scionaddr", at)
 		st.assumeValid(av)
 		found := false
-		for p, h := range av.L {
+		for _, p := range sortedKeys(av.L) {
+			h := av.L[p]
 			if p == ".Host" {
 				st.assume(mkNot(mkEq(h, mkInt(sortRef, 0))))
 				found = true
@@ -547,7 +549,7 @@ func init() {
 		}
 		if !found {
 			keys := []string{}
-			for p := range av.L {
+			for _, p := range sortedKeys(av.L) {
 				keys = append(keys, p)
 			}
 			unsupp("udp.UDPAddr: no Host leaf among %v", keys)
@@ -573,7 +575,9 @@ func init() {
 		ex.check(st, mkEq(t, mkInt(t.Sort, 1)), "safety:panic", c, "addr.Host.IP on a non-IP host address: "+ex.src(c.Fun))
 		st.assume(mkEq(t, mkInt(t.Sort, 1)))
 		ipv := Value{T: sig.Results().At(0).Type(), L: map[string]*Term{}}
-		for p, x := range r.L {
+		for _, p := range sortedKeys(r.L) {
+			x := r.L[p]
+			_ = x
 			if strings.HasPrefix(p, ".ip") {
 				ipv.L[strings.TrimPrefix(p, ".ip")] = x
 			}
